@@ -35,6 +35,13 @@ if typing.TYPE_CHECKING:
         )
 
 
+def _as_table(arr) -> pd.DataFrame:
+    """Optional geometry tables may be given as arrays: turn them into (possibly empty) tables."""
+    if arr is None:
+        return pd.DataFrame()
+    return arr if isinstance(arr, pd.DataFrame) else pd.DataFrame(np.asarray(arr))
+
+
 class GeometryMixin:
     """
     Mixin that gives the ability to define the geometry the instance of the setup class.
@@ -92,14 +99,19 @@ class GeometryMixin:
         ref_ind = getattr(self, "ref_ind", None)
 
         # Assemble dictionary for check function
+        # the directions may be given as an array (one row per row of sens_coord)
+        if not isinstance(sens_dir, pd.DataFrame):
+            sens_dir = pd.DataFrame(
+                np.asarray(sens_dir), index=sens_coord.index, columns=sens_coord.columns
+            )
         file_dict = {
             "sensors names": sens_names,
             "sensors coordinates": sens_coord,
             "sensors directions": sens_dir,
-            "sensors lines": sens_lines if sens_lines is not None else pd.DataFrame(),
-            "BG nodes": bg_nodes if bg_nodes is not None else pd.DataFrame(),
-            "BG lines": bg_lines if bg_lines is not None else pd.DataFrame(),
-            "BG surfaces": bg_surf if bg_surf is not None else pd.DataFrame(),
+            "sensors lines": _as_table(sens_lines),
+            "BG nodes": _as_table(bg_nodes),
+            "BG lines": _as_table(bg_lines),
+            "BG surfaces": _as_table(bg_surf),
         }
 
         # check on input
@@ -178,11 +190,11 @@ class GeometryMixin:
             "mapping": sens_map,
             "constraints": cstr if cstr is not None else pd.DataFrame(),
             "sensors sign": sens_sign if sens_sign is not None else pd.DataFrame(),
-            "sensors lines": sens_lines if sens_lines is not None else pd.DataFrame(),
-            "sensors surfaces": sens_surf if sens_surf is not None else pd.DataFrame(),
-            "BG nodes": bg_nodes if bg_nodes is not None else pd.DataFrame(),
-            "BG lines": bg_lines if bg_lines is not None else pd.DataFrame(),
-            "BG surfaces": bg_surf if bg_surf is not None else pd.DataFrame(),
+            "sensors lines": _as_table(sens_lines),
+            "sensors surfaces": _as_table(sens_surf),
+            "BG nodes": _as_table(bg_nodes),
+            "BG lines": _as_table(bg_lines),
+            "BG surfaces": _as_table(bg_surf),
         }
 
         # check on input
